@@ -95,6 +95,10 @@ EffScale(user, vals, bits, signed) ==
 FramesStored(fr) == IF fr = << >> THEN << << 0, 0 >> >> ELSE fr
 \* named deviation EnergyStored: ExamInfo::has_energy_information() is low > 0 and high > 0; otherwise "not set" (-1)
 HasEnergy(ex) == ex.lo8 > 0 /\ ex.hi8 > 0
+\* study start time << days since 1970, second of the day, ms >>: "study date" / "study time" are written when
+\* the time is > 0 (0 = not set); the format keeps hundredths of a second
+HasStart(ex) == ex.startD > 0 \/ ex.startS > 0 \/ ex.startMs > 0
+StartStored(ex) == IF HasStart(ex) THEN << ex.startD, ex.startS, (ex.startMs \div 10) * 10 >> ELSE << 0, 0, 0 >>
 \* calibration factor: "not set" is any value <= 0, read back as -1
 CalStored(c) == IF c > 0 THEN c ELSE -4
 \* named deviation DefaultRadionuclide: RadionuclideDB::get_radionuclide("") is F-18 for PT, Tc-99m for NM, unknown otherwise
@@ -108,7 +112,8 @@ ExamStored(ex, env) ==
   [mod |-> ex.mod, orient |-> ex.orient, rot |-> ex.rot, frames |-> FramesStored(ex.frames),
    rn |-> r.rn, hlms |-> r.hlms, brppm |-> r.brppm,
    lo8 |-> IF HasEnergy(ex) THEN ex.lo8 ELSE -8, hi8 |-> IF HasEnergy(ex) THEN ex.hi8 ELSE -8,
-   cal4 |-> CalStored(ex.cal4)]
+   cal4 |-> CalStored(ex.cal4),
+   startD |-> StartStored(ex)[1], startS |-> StartStored(ex)[2], startMs |-> StartStored(ex)[3]]
 \* --- implementation-shaped: which keys write_basic_interfile_image_header emits, and how
 \* InterfileHeader::post_processing rebuilds the exam information from them ("-" / negative = key absent)
 OrientName(o) == << "head_in", "feet_in", "other", "-" >>[o + 1]          \* unknown orientation: key not written
@@ -126,7 +131,9 @@ ExamToHeader(ex) ==
    rn |-> IF ex.rn \in { "", "Unknown" } THEN "-" ELSE ex.rn,
    hlms |-> IF ex.hlms > 0 THEN ex.hlms ELSE -1000, brppm |-> IF ex.brppm > 0 THEN ex.brppm ELSE -1000000,
    lo8 |-> IF win THEN ex.lo8 ELSE -8, hi8 |-> IF win THEN ex.hi8 ELSE -8,
-   cal4 |-> IF ex.cal4 > 0 THEN ex.cal4 ELSE -4]
+   cal4 |-> IF ex.cal4 > 0 THEN ex.cal4 ELSE -4,
+   hasDate |-> HasStart(ex), date |-> IF HasStart(ex) THEN ex.startD ELSE 0,
+   time |-> IF HasStart(ex) THEN << ex.startS, (ex.startMs \div 10) * 10 >> ELSE << 0, 0 >>]
 ExamFromHeader(h, env) ==
   LET mod == IF h.mod = "-" THEN "Unknown" ELSE h.mod
       \* a named radionuclide is taken from the database or, failing that, from the header's own numbers: the same numbers
@@ -137,10 +144,13 @@ ExamFromHeader(h, env) ==
       win == h.lo8 > 0 /\ h.hi8 > 0 IN                                      \* "upper > 0 && lower > 0"
   [mod |-> mod, orient |-> OrientOf(h.orient), rot |-> RotOf(h.rot), frames |-> fr,
    rn |-> r.rn, hlms |-> r.hlms, brppm |-> r.brppm,
-   lo8 |-> IF win THEN h.lo8 ELSE -8, hi8 |-> IF win THEN h.hi8 ELSE -8, cal4 |-> IF h.cal4 > 0 THEN h.cal4 ELSE -4]
+   lo8 |-> IF win THEN h.lo8 ELSE -8, hi8 |-> IF win THEN h.hi8 ELSE -8, cal4 |-> IF h.cal4 > 0 THEN h.cal4 ELSE -4,
+   \* "if (!study_date_time.date.empty() && !study_date_time.time.empty())"
+   startD |-> IF h.hasDate THEN h.date ELSE 0, startS |-> IF h.hasDate THEN h.time[1] ELSE 0, startMs |-> IF h.hasDate THEN h.time[2] ELSE 0]
 
 ExamProj(ex) == [mod |-> ex.mod, orient |-> ex.orient, rot |-> ex.rot, frames |-> ex.frames, rn |-> ex.rn, hlms |-> ex.hlms,
-                 brppm |-> ex.brppm, lo8 |-> ex.lo8, hi8 |-> ex.hi8, cal4 |-> ex.cal4]
+                 brppm |-> ex.brppm, lo8 |-> ex.lo8, hi8 |-> ex.hi8, cal4 |-> ex.cal4,
+                 startD |-> ex.startD, startS |-> ex.startS, startMs |-> ex.startMs]
 
 (* ------------------------------------------------------------------------ *)
 (* Abstract files and the write / read maps (model check)                     *)
